@@ -98,9 +98,13 @@ def run_case(arg):
         "wall_s": 0.0,
     }
     try:
-        mod = importlib.import_module(case["module"])
-        func = getattr(mod, case["func"])
-        if case["kind"] == "conc":
+        func = None
+        if case["kind"] != "ch":
+            mod = importlib.import_module(case["module"])
+            func = getattr(mod, case["func"])
+        if case["kind"] == "ch":
+            _run_ch_case(case, res)
+        elif case["kind"] == "conc":
             _run_conc_case(case, func, res)
         else:
             _run_sx_case(case, func, res, tier, seed, known)
@@ -108,6 +112,42 @@ def run_case(arg):
         res["errors"].append(f"{type(e).__name__}: {e}\n{traceback.format_exc(limit=-8)}")
     res["wall_s"] = time.perf_counter() - t0
     return res
+
+
+def _run_ch_case(case, res):
+    """a CrossHair condition (symbolic strings); kwargs: func, timeout, expect"""
+    from pvlib.ch.runner import replay_call, run_condition
+    from pvlib.sx.engine import Stats
+
+    kw = case["kwargs"]
+    r = run_condition(case["module"], kw["func"], kw.get("timeout", 120), kw.get("expect", "confirmed"))
+    st = Stats()
+    st.paths = 1
+    res["stats"] = st.as_dict()
+    res["stats"]["ch_conditions"] = 1
+    res["ch"] = {"func": kw["func"], "verdict": r["verdict"], "wall_s": round(r["wall_s"], 1), "detail": r["detail"]}
+    expect = kw.get("expect", "confirmed")
+    if expect == "refuted":
+        # reachability twin: a counterexample MUST exist
+        if r["verdict"] == "refuted":
+            res["stats"]["discharged"] = 1
+            res["samples"].append({"label": "reachability-twin:" + kw["func"], "call": r["call"]})
+        else:
+            res["errors"].append(f"vacuity: reachability twin {kw['func']} was not refuted ({r['verdict']}: {r['detail']})")
+        return
+    if r["verdict"] == "confirmed":
+        res["stats"]["discharged"] = 1
+        res["stats"]["ch_confirmed"] = 1
+        res["samples"].append({"label": "crosshair:" + kw["func"], "verdict": "Confirmed over all paths", "wall_s": round(r["wall_s"], 1)})
+    elif r["verdict"] == "refuted":
+        failed, how = replay_call(case["module"], r["call"])
+        if failed:
+            res["violations"].append({"label": "crosshair:" + kw["func"], "model": {"call": r["call"]}, "reproduced": True, "detail": how, "obligation": r["detail"]})
+        else:
+            res["errors"].append(f"non-reproducing CrossHair counterexample {r['call']}: {how}")
+    else:
+        res["inconclusive"].append({"label": "crosshair:" + kw["func"], "why": r["detail"]})
+        res["n_inconclusive"] = 1
 
 
 def _run_conc_case(case, func, res):
@@ -325,7 +365,8 @@ def finish(prop, tier, seed, mod, cases, results, known, wall):
     from pvlib.sx.engine import Stats
 
     tot = Stats()
-    agg_extra = {"conc_runs": 0}
+    agg_extra = {"conc_runs": 0, "ch_conditions": 0, "ch_confirmed": 0}
+    ch_details = []
     violations, known_hits, errors, inconcl = [], [], [], []
     validated = 0
     samples = []
@@ -335,6 +376,10 @@ def finish(prop, tier, seed, mod, cases, results, known, wall):
         if st:
             tot.add({f: st.get(f, 0) for f in Stats.FIELDS})
             agg_extra["conc_runs"] += st.get("conc_runs", 0)
+            agg_extra["ch_conditions"] += st.get("ch_conditions", 0)
+            agg_extra["ch_confirmed"] += st.get("ch_confirmed", 0)
+        if r.get("ch"):
+            ch_details.append(r["ch"])
         f = fam.setdefault(r["case"]["family"], {"cases": 0, "paths": 0, "discharged": 0, "wall_s": 0.0})
         f["cases"] += 1
         f["paths"] += st.get("paths", 0) if st else 0
@@ -429,6 +474,7 @@ def finish(prop, tier, seed, mod, cases, results, known, wall):
             "realizations": tot.realizations,
             "float_demands_off_allowlist": tot.float_demands,
             "concrete_enumeration_runs": agg_extra["conc_runs"],
+            "crosshair_conditions": {"total": agg_extra["ch_conditions"], "confirmed_over_all_paths": agg_extra["ch_confirmed"], "details": ch_details},
             "functions_encoded": meta.get("functions_encoded", []),
             "bounds": meta.get("bounds", {}),
             "enumerated_axes": meta.get("enumerated_axes", []),
@@ -487,6 +533,14 @@ def _z3_version():
 def replay_file(path):
     with open(path) as f:
         payload = json.load(f)
+    if payload["case"].get("kind") == "ch":
+        from pvlib.ch.runner import replay_call
+
+        call = payload["model"]["call"].split(" (which")[0]
+        failed, how = replay_call(payload["case"]["module"], call)
+        print(json.dumps({"signature": payload["signature"], "call": call, "result": how}, indent=1))
+        print("REPRODUCED" if failed else "NOT REPRODUCED")
+        return 1 if failed else 0
     rr = replay_concrete(payload["case"], payload["model"])
     print(json.dumps({"signature": payload["signature"], "model": _short_model(payload["model"]), "status": rr["status"], "exc": rr["exc"], "failed": rr["failed"], "proved": rr["proved"][-5:]}, indent=1, default=str))
     if rr.get("detail"):
